@@ -437,10 +437,15 @@ class ExprMixin:
     def ev_Compare(self, n, st):
         outs = []
         for s, vs in self.ev_many([n.left] + n.comparators, st):
-            if any(isinstance(op, (ast.Lt, ast.LtE, ast.Gt, ast.GtE)) for op in n.ops):
+            if any(isinstance(op, (ast.Lt, ast.LtE, ast.Gt, ast.GtE, ast.In, ast.NotIn)) for op in n.ops):
                 forked = False
                 for i, v in enumerate(vs):
+                    if i == 0 and all(isinstance(op, (ast.In, ast.NotIn)) for op in n.ops):
+                        continue      # the left operand of `in` may be None
                     if not v.is_py and v.ty.kind in ("opt", "none"):
+                        if self.spec_mode and v.ty.kind == "opt":
+                            vs[i] = self.unwrap(v)
+                            continue
                         bad, ok = self.branch(s, self.is_none(v), "none-compare")
                         if bad is not None:
                             self.raise_(bad, TypeError, where=n)
